@@ -183,7 +183,7 @@ def _run(chk, wd, proved):
                (b'RESULT 00\n',), (b'RESULT 000000\n',),
                # result bodies the default handler must reject: trailing LF, other case, garbage, NUL/high bytes
                (b'RESULT 3\n', b'OK\n', b'READY\n'), (b'RESULT 2\n', b'ok'), (b'RESULT 2\n', b'Ok', b'READY\n'),
-               (b'RESULT 4\n', b'\x00\xff\x80\n'), (b'RESULT 3\n', b' OK'), (b'RESULT 4\n', b'OKOK'), (b'RESULT 1\n', b'O', b'K'),
+               (b'RESULT 4\n', b'\x00\xff\x80\n'), (b'RESULT 2\n', b'\xff\xfe', b'READY\n'), (b'RESULT 3\n', b' OK'), (b'RESULT 4\n', b'OKOK'), (b'RESULT 1\n', b'O', b'K'),
                # escape sequences inside payloads, across tokens and across chunk boundaries
                (b'RESULT 7\n', b'O\x1b[31mK', b'READY\n'), (b'RE\x1b[1mADY\n',), (b'READY\n', b'\x1b[0m'),
                (b'RESULT 2\n', b'\x1b[0mOK'), (b'RESULT 5\n', b'\x1b[31m', b'READY\n'), (b'RES\x1b[mULT 2\nOK',),
@@ -381,6 +381,31 @@ def _run(chk, wd, proved):
                          [['dispatch', 901, [['room', room], ['room', env.BIG]]]] + mid + tail, 'T')
                 evaluations += 1
                 chk.dist('T')
+
+    # ---------------- family D: what is still in a dead listener's stdout pipe is read at reap (drain) exactly as a
+    #                  read event would have read it: finish(last) = feed(last); finish(b'') - in every process
+    #                  state, also after a stop request (an answered event must not come back)
+    for sname in ('one-busy', 'both-ready'):
+        for mid in ([], [['stop', 0]], [['stopfail', 0]], [['feed', 0, b'RESULT 2\n']], [['stop', 0], ['feed', 0, b'RESULT 2\n']]):
+            for last in (b'RESULT 2\nOK', b'RESULT 4\nFAIL', b'OK', b'RESULT 2\nOKREADY\n', b'garbage', b'RESULT 2\n', b'READY\n'):
+                cur['strip'] = False
+                ta = add_case(2, 0, s_setups[sname], mid + [['finish', 0, last, ['room', env.BIG], False]], 'D')
+                tb = impl_only(2, 0, s_setups[sname], mid + [['feed', 0, last], ['finish', 0, b'', ['room', env.BIG], False]])
+                evaluations += 2
+                chk.dist('D')
+                a_key, a_outs = ta[-1][0], ta[-1][1]
+                b_key, b_outs = tb[-1][0], tb[-2][1] + tb[-1][1]
+                if (a_key, a_outs) != (b_key, b_outs) and 'SInapplicable' not in a_outs + b_outs:
+                    counts['drain'] = counts.get('drain', 0) + 1
+                    if counts['drain'] <= 5:
+                        chk.violation({'kind': 'bytes a listener wrote before it died are not interpreted at reap as a read event '
+                                               'would have interpreted them',
+                                       'case': meta[-1], 'last_bytes_in_the_pipe': list(last),
+                                       'effects_of_finish_with_these_bytes': list(a_outs),
+                                       'effects_of_read_event_then_finish': list(b_outs),
+                                       'explanation': 'e.g. a listener being stopped that answered its event and exited: the '
+                                                      'answer must count; the event must not be returned to the pool and '
+                                                      'delivered again'})
 
     # ---------------- family P: the real ServerOptions.make_pipes over os/fcntl proxies: every
     #                  parent-side end (stdin write end, stdout/stderr read ends) must be non-blocking
